@@ -47,10 +47,10 @@ def build_schema_harness(ctx, S, name, fl):
     vd, wd = [], []
     for t in S['tables']:
         T = t['name']
-        vd.append('            else if (!strcmp(root, "%s")) rc = ws ? %s_verify_as_root_with_size(b, len) : %s_verify_as_root(b, len);' % (T, T, T))
+        vd.append('            else if (!strcmp(root, "%s")) rc = th ? %s_verify_as_root_with_type_hash_and_size(b, len, 0) : ws ? %s_verify_as_root_with_size(b, len) : %s_verify_as_root(b, len);' % (T, T, T, T))
         wd.append('                else if (!strcmp(root, "%s")) { walk_%s(%s_as_root(rb)); plen = %s_print_json_as_root(&ctx, rb, rlen, 0); }' % (T, T, T, T))
     for s in S['struct_order']:
-        vd.append('            else if (!strcmp(root, "%s")) rc = ws ? %s_verify_as_root_with_size(b, len) : %s_verify_as_root(b, len);' % (s, s, s))
+        vd.append('            else if (!strcmp(root, "%s")) rc = th ? %s_verify_as_root_with_type_hash_and_size(b, len, 0) : ws ? %s_verify_as_root_with_size(b, len) : %s_verify_as_root(b, len);' % (s, s, s, s))
         wd.append('                else if (!strcmp(root, "%s")) { walk_%s(%s_as_root(rb)); plen = %s_print_json_as_root(&ctx, rb, rlen, 0); }' % (s, s, s, s))
     src = tmpl.replace('@@SCHEMA@@', name).replace('@@WALKER@@', c01gen.render_walker(S, name)) \
               .replace('@@VERIFY_DISPATCH@@', '\n'.join(vd)).replace('@@WALK_DISPATCH@@', '\n'.join(wd))
@@ -258,6 +258,11 @@ def run(ctx):
                         cases.append(('%s %s %s %d %s' % ('v' if klass == 'valid_misplaced' else 'vw', rootname, v, am, hx),
                                       'verify %s_c %s %s %d %s' % (name, rootdesc, v, am, hx),
                                       'walk %s_e %s %s %d %s' % (name, rootdesc, v, am, hx), klass))
+                        if ws and klass in ('valid', 'mut_sizefield', 'trunc', 'mut_uoffset') :
+                            # the type-hash + size entry points (typed header check) on the same bytes; hash 0 accepts any identifier
+                            cases.append(('%s %s h %d %s' % ('vw', rootname, am, hx),
+                                          'verify %s_c %s s %d %s' % (name, rootdesc, am, hx),
+                                          'walk %s_e %s s %d %s' % (name, rootdesc, am, hx), klass + '_typed'))
         # run
         ilines = [c[0] for c in cases]
         ctx.log('%s: %d cases' % (name, len(cases)))
